@@ -28,7 +28,7 @@ func init() {
 			return "", err
 		}
 		want := []string{"falcoIgnoreNextLine", "falcoIgnoreThisLine", "falcoIgnoreStart", "falcoIgnoreEnd"}
-		consts := stringConsts(f)
+		consts := lintStringConsts(f)
 		for _, n := range want {
 			v, ok := consts[n]
 			if !ok {
@@ -47,7 +47,7 @@ func init() {
 		if err != nil {
 			return "", err
 		}
-		consts = stringConsts(f)
+		consts = lintStringConsts(f)
 		for _, n := range []string{"ERROR", "WARNING", "INFO", "IGNORE"} {
 			v, ok := consts[n]
 			if !ok {
@@ -115,7 +115,7 @@ func init() {
 	})
 }
 
-func stringConsts(f *ast.File) map[string]string {
+func lintStringConsts(f *ast.File) map[string]string {
 	out := map[string]string{}
 	for _, d := range f.Decls {
 		gd, ok := d.(*ast.GenDecl)
